@@ -821,6 +821,51 @@ func inflightScenario(ctx context.Context, s int) (string, []string) {
 // blocks inside the configured range; C20: each task with the integration's start and stop).
 func dashboardRange(e *core.Env, key string) {
 	ctx := context.Background()
+	{
+		// one declaration on several sources, each reference with its OWN start and stop (file configuration,
+		// in both orders): every task gets the range written next to its source
+		for oi, order := range [][]int{{0, 1, 2}, {2, 0, 1}} {
+			refs := []config.Source{{Name: "sa", Start: 3, Stop: 5}, {Name: "sb", Start: 700, Stop: 0}, {Name: "sc", Start: 40, Stop: 41}}
+			ig := transferIG("igmulti", "tmulti", []string{"block_time"}, nil)
+			for _, k := range order {
+				ig.Sources = append(ig.Sources, refs[k])
+			}
+			conf := config.Root{Integrations: []config.Integration{ig}}
+			for _, rf := range refs {
+				conf.Sources = append(conf.Sources, config.Source{Name: rf.Name, ChainID: 7, URLs: []string{"http://127.0.0.1:1"}, PollDuration: time.Second})
+			}
+			verdict := "ok"
+			if err := config.ValidateFix(&conf); err != nil {
+				verdict = "rejected: " + err.Error()
+			} else {
+				pg := fakepg.New()
+				url, _ := pg.Start()
+				if pool, err := pgxpool.New(ctx, url); err == nil {
+					ts, lerr := shovel.VerifLoadTasks(ctx, pool, conf)
+					if lerr != nil {
+						verdict = "load: " + lerr.Error()
+					}
+					seen := 0
+					for _, t := range ts {
+						for _, rf := range refs {
+							if t.Src == rf.Name {
+								seen++
+								if t.Start != rf.Start || t.Stop != rf.Stop {
+									verdict = fmt.Sprintf("source %s is referenced with start %d stop %d, its task runs with start %d stop %d", rf.Name, rf.Start, rf.Stop, t.Start, t.Stop)
+								}
+							}
+						}
+					}
+					if lerr == nil && seen != 3 {
+						verdict = fmt.Sprintf("%d tasks for three source references", seen)
+					}
+					go pool.Close()
+				}
+				pg.Close()
+			}
+			e.Add(core.Case{Impl: verdict, Spec: "ok", Key: fmt.Sprintf("%s-range-per-source %d", key, oi), Nontrivial: true, Tags: []string{"range-per-source-reference"}})
+		}
+	}
 	for vi, rng := range [][2]uint64{{3, 5}, {2, 2}, {4, 0}} {
 		verdict := func() string {
 			pg := fakepg.New()
@@ -857,6 +902,18 @@ func dashboardRange(e *core.Env, key string) {
 			config.Migrate(ctx, conn, root)
 			conn.Release()
 			wh := web.New(mgr, &conf, pool)
+			// looking at the dashboard's pages changes nothing: the configuration the manager reloads from is
+			// the one the file declared (same sources, same URLs with their paths and keys)
+			before, _ := json.Marshal(conf)
+			for _, page := range []struct {
+				path string
+				h    func(http.ResponseWriter, *http.Request)
+			}{{"/", wh.Index}, {"/add-source", wh.AddSource}, {"/add-integration", wh.AddIntegration}, {"/diag", wh.Diag}} {
+				core.Protect(func() string { page.h(httptest.NewRecorder(), httptest.NewRequest("GET", page.path, nil)); return "" })
+			}
+			if after, _ := json.Marshal(conf); string(after) != string(before) {
+				return fmt.Sprintf("viewing the dashboard pages changed the configuration the manager runs from: %s -> %s", trunc2(string(before)), trunc2(string(after)))
+			}
 			req := httptest.NewRequest("POST", "/save-integration", strings.NewReader(g.json()))
 			rec := httptest.NewRecorder()
 			wh.SaveIntegration(rec, req)
